@@ -6,10 +6,26 @@ ROOT = os.path.dirname(os.path.dirname(os.path.abspath(__file__)))
 TECH = "contract-based deductive verification: VCs generated from the real function ASTs (pyvc) against sidecar contracts, discharged by cvc5 + z3"
 
 CLAIMED = {
+ "C01": dict(
+  text="get_session_keys is executed symbolically with BOTH replies (M2, M4) unconstrained: at every return point the path condition is proved to imply that M2's encrypted data opened under HKDF(DH(this session)) with nonce PV-Msg02, that the identifier inside equals the stored one and that the signature inside verified under the STORED long-term key over accPK|accID|iosPK of this session (or, on the resume shortcut, that the tag opened under the key derived from the previous session's secret); M1/M3 and the derive closure are proved equal to the Pair Verify / Pair Resume formulas. Every other path is proved to end in a listed exception. 320 obligations, all paths.",
+  note="Proof is in the symbolic (Dolev-Yao) crypto model: Ed25519/X25519/HKDF/ChaCha20-Poly1305 are ideal function symbols (DESIGN 3.3); utf-8/hex codecs uninterpreted partial inverses. Accessory-side acceptance of M3 follows at spec level from the proved M3 formula; it is additionally exercised by the labelled bounded scenario table (independent spec accessory in harness/hap_accessory.py). Key-install sites in the IP/BLE/CoAP drivers are not yet under contract.",
+  ref="4/C01"),
+ "C03": dict(
+  text="perform_pair_setup_part1/part2 executed symbolically with all accessory replies unconstrained: proved that part1 returns exactly the reply's salt and key and only if both are present; that part2 continues past M4 only after the SRP proof verified, builds M3/M5 by the Pair Setup formulas (labels, iOSDeviceInfo order, PS-Msg05), returns only if M6 opened under the exchange key with PS-Msg06, carries id/key/signature and the signature verified over accX|id|key, and that the returned record is self-consistent (LTPK = ed_pub(LTSK), accessory id/key = the authenticated ones). Every other path raises.",
+  note="Symbolic crypto model as C01; SrpClient enters by its assumed contract (RFC 5054 values; the class itself is the subject of C02). Bounded scenario table (labelled) replays refutations on the real generators.",
+  ref="4/C03"),
+ "C04": dict(
+  text="error_handler is proved to raise exactly the class of the specification's table for every byte string and never return; handle_state_step to return only when the reply has no Error item and a right-or-absent State, raising the mapped class otherwise; all three state machines, run with unconstrained replies, to complete normally only if no reply carried an Error or a wrong State, to raise the mapped class when one did, and to let State and Error through every expectations filter they yield.",
+  note="Trusted: pyvc semantics, dict(<arbitrary TLV list>) modelled as an arbitrary finite map. IP/BLE add/remove-pairing reply checks not yet under contract.",
+  ref="4/C04"),
  "C15": dict(
-  text="TLV.encode_list is proved equal to the canonical TLV8 spec function for every item list (loop invariants, all lengths) and to raise ValueError only for an invalid type/non-empty separator; TLV.decode_bytearray is proved total (only TlvParseException escapes, exactly on malformed input), equal to the recursive decoding spec incl. merge and 'expected' filter, and to leave its argument unchanged. Each obligation is an SMT validity query over the AST of the function as it is in /repo now.",
-  note="Trusted: pyvc's encoding of Python semantics (DESIGN 2.3), cvc5/z3, models of bytearray/list/struct builtins (DESIGN 3.1). The round-trip lemma dec(enc(L)) = L over the two spec functions is checked bounded (labelled) until the inductive lemma layer lands; BLE fragment reassembly not yet under contract.",
+  text="TLV.encode_list is proved equal to the canonical TLV8 spec function for every item list (loop invariants, all lengths) and to raise ValueError only for an invalid type/non-empty separator; TLV.decode_bytearray/decode_bytes are proved total (only TlvParseException escapes, exactly on malformed input), equal to the recursive decoding spec incl. merge and 'expected' filter, and to leave the argument unchanged.",
+  note="Trusted: pyvc's encoding of Python semantics (DESIGN 2.3), cvc5/z3, models of bytearray/list/struct builtins (DESIGN 3.1). The round-trip lemma dec(enc(L)) = L over the two spec functions and BLE fragment reassembly are not yet discharged.",
   ref="4/C15"),
+ "C17": dict(
+  text="pdu.encode_pdu (generator, symbolic loop) is proved to emit a first fragment with the 7-byte header and size-7 body bytes, continuations with control 0x80 + tid, every fragment <= fragment size, and payloads that a conformant accessory reassembles to exactly the body, for every body and fragment size >= 8; decode_pdu / decode_pdu_continuation are proved to reject exactly wrong tid / missing continuation flag / undefined status and to return the header-layout slices otherwise.",
+  note="Trusted: struct pack/unpack model, pyvc semantics. BLE _write_pdu/_read_pdu and the CoAP batch codecs are not yet under contract.",
+  ref="4/C17"),
 }
 
 def main():
